@@ -64,6 +64,7 @@ func (o lqObl) unreleased(t int64) *big.Int {
 }
 
 type lqTimeOracle struct {
+	class string // known-finding class of the violation reported (K18), "" = none
 	obl      [lqNA][]lqObl
 	ownVest  [lqNA][]lqP // vesting periods of the set-up op (only to recognise "own vesting still running")
 	ownStart [lqNA]int64
@@ -276,11 +277,13 @@ func (o *lqTimeOracle) check(e *Env, i int, op lqOp) string {
 			sent = fmt.Sprintf("bank MsgSend of %s aISLM (spendable balance + 1) executed on a fork of the state", more)
 		}
 		retained := new(big.Int).Add(new(big.Int).Sub(bal, eff), del)
-		if o.exempt[a] && !lqStrict {
-			if retained.Cmp(need) < 0 {
-				o.tags["candidate:clawback-while-vesting-unlocks-redeemed-share"] = true
+		if o.exempt[a] && retained.Cmp(need) < 0 {
+			// known finding K18b: the class is a predicate on the inputs (a clawback on an account that received a
+			// redeemed share while its own vesting was still running)
+			o.tags["k18:clawback-while-vesting-unlocks-redeemed-share"] = true
+			if o.class == "" {
+				o.class = "liquid:clawback-while-own-vesting-runs-unlocks-redeemed-share"
 			}
-			continue
 		}
 		if retained.Cmp(need) < 0 {
 			n := new(big.Int).Sub(need, retained)
@@ -304,9 +307,12 @@ func (o *lqTimeOracle) check(e *Env, i int, op lqOp) string {
 		if o.ownVestingRunning(a, now) {
 			o.tags["timecheck:own-vesting-running"] = true
 			if strong := o.strongNeed(a, now); strong != nil && retained.Cmp(strong) < 0 {
-				o.tags["candidate:redeem-frees-unvested-own-coins"] = true
+				o.tags["k18:redeem-frees-unvested-own-coins"] = true
 				if lqStrict {
-					return fmt.Sprintf("(strict reading, -arg strict=1) %s aISLM that the bank held back before the redeem became spendable: at block time %d account %d holds %s aISLM "+
+					if o.class == "" {
+						o.class = "liquid:redeem-into-account-with-running-vesting-frees-coins"
+					}
+					return fmt.Sprintf("%s aISLM that the bank held back before the redeem became spendable: at block time %d account %d holds %s aISLM "+
 						"(+ %s delegated); its own grant (original - min(unlocked, vested)) plus the unreleased redeemed shares (%s) demand %s locked, but %s can be sent away — %s",
 						new(big.Int).Sub(strong, retained), now, a, bal, del, shares, strong, eff, sent)
 				}
